@@ -110,6 +110,9 @@ def run(tier: str, seed: int) -> int:
     cases = chk.generate("Gen_C08")
     obs = drive("harness.props.c08", "drive_case", cases, chunk=40)
     verdicts = chk.judge("Judge_C08", obs)
+    from .. import corrupt as _corrupt
+
+    chk.binding_selftest("Judge_C08", obs, verdicts, _corrupt.c08)
     by_id = {o["id"]: _pretty(o) for o in obs}
     chk.absorb(verdicts, by_id, {c["id"]: c for c in cases})
     nontrivial = sum(1 for c in cases if len(c["kinds"]) >= 2 and any(k.startswith("fail") for k in c["kinds"]))
